@@ -111,6 +111,38 @@ fn do_value(syms: &Syms, text: &str) -> Value {
     }
 }
 
+/// CLDR oracle, independent of leptos_i18n: direct icu_plurals calls.
+fn do_plural_oracle(c: &Value) -> Value {
+    use icu_plurals::{PluralRuleType, PluralRules};
+    let mut cats = serde_json::Map::new();
+    let mut categories = serde_json::Map::new();
+    for l in c["locales"].as_array().unwrap() {
+        let l = l.as_str().unwrap();
+        let loc: icu_locid::Locale = l.parse().unwrap();
+        let mut per_type = serde_json::Map::new();
+        let mut cat_type = serde_json::Map::new();
+        for (tname, ty) in [("cardinal", PluralRuleType::Cardinal), ("ordinal", PluralRuleType::Ordinal)] {
+            let rules = PluralRules::try_new(&(&loc).into(), ty).unwrap();
+            let mut m = serde_json::Map::new();
+            for n in c["counts"].as_array().unwrap() {
+                let n = n.as_str().unwrap();
+                let fd: fixed_decimal::FixedDecimal = n.parse().unwrap();
+                let cat = rules.category_for(&fd);
+                m.insert(n.to_string(), json!(form_name(leptos_i18n_parser::parse_locales::plurals::PluralForm::from_icu_category(cat))));
+            }
+            per_type.insert(tname.to_string(), Value::Object(m));
+            let cs: Vec<Value> = rules
+                .categories()
+                .map(|c| json!(form_name(leptos_i18n_parser::parse_locales::plurals::PluralForm::from_icu_category(c))))
+                .collect();
+            cat_type.insert(tname.to_string(), Value::Array(cs));
+        }
+        cats.insert(l.to_string(), Value::Object(per_type));
+        categories.insert(l.to_string(), Value::Object(cat_type));
+    }
+    json!({"cats": cats, "categories": categories})
+}
+
 fn main() {
     let args: Vec<String> = std::env::args().collect();
     let mut cases = String::new();
@@ -150,6 +182,10 @@ fn main() {
                 let text = syms.text(&c["s"]);
                 let r = do_value(&syms, &text);
                 w.emit(&json!({"ev": "Value", "case": id, "build": build, "res": r}));
+            }
+            "plural_oracle" => {
+                let r = do_plural_oracle(&c);
+                w.emit(&json!({"ev": "PluralOracle", "case": id, "oracle": r}));
             }
             _ => panic!("unknown mode"),
         }
